@@ -363,3 +363,78 @@ def field_type(t, fld):
       if t[0] != "s": raise IRError("field of non-struct")
       t = dict((n, ft) for n, ft in t[2])[f]
   return t
+
+
+def static_rw(m, ip, stmts):
+  """static (over-approximate) sets of (key, bit) read and written by a statement list, computed from
+  the IR only.  Variable bit indices / loop-variable slices count as the whole referenced range."""
+  reads, writes = set(), set()
+
+  def rng(ref):
+    key, lo, hi = m.resolve(ip, ref)
+    return {(key, b) for b in range(lo, hi)}
+
+  def ex(e):
+    k = e[0]
+    if k == "sig": reads.update(rng(e[1]))
+    elif k == "bit":
+      if e[2][0] == "lit":
+        key, lo, hi = m.resolve(ip, e[1]); reads.add((key, lo + e[2][1]))
+      else:
+        reads.update(rng(e[1])); ex(e[2])
+    elif k == "slice_lv": reads.update(rng(e[1]))
+    elif k in ("const", "lit", "lv", "tmp", "tmpsl"): pass
+    elif k == "bin": ex(e[2]); ex(e[3])
+    elif k in ("shl", "shr"): ex(e[1]); ex(e[2])
+    elif k == "cmp": ex(e[2]); ex(e[3])
+    elif k == "inv": ex(e[1])
+    elif k == "concat":
+      for x in e[1]: ex(x)
+    elif k in ("zext", "sext", "trunc"): ex(e[1])
+    elif k == "red": ex(e[2])
+    elif k == "ifexp": ex(e[1]); ex(e[2]); ex(e[3])
+    else: raise IRError(k)
+
+  def st(ss):
+    for s in ss:
+      k = s[0]
+      if k == "assign": writes.update(rng(s[1])); ex(s[2])
+      elif k == "assign_bit":
+        if s[2][0] == "lit":
+          key, lo, hi = m.resolve(ip, s[1]); writes.add((key, lo + s[2][1]))
+        else:
+          writes.update(rng(s[1])); ex(s[2])
+        ex(s[3])
+      elif k == "assign_struct":
+        writes.update(rng(s[1]))
+        for x in s[3]: ex(x)
+      elif k == "tmp": ex(s[2])
+      elif k == "if": ex(s[1]); st(s[2]); st(s[3])
+      elif k == "for": st(s[5])
+      else: raise IRError(k)
+  st(stmts)
+  return reads, writes
+
+
+def conn_edges(m):
+  """bit-level propagation edges src_bit -> dst_bit of every connection (explicit and implicit)"""
+  edges = {}
+  for ip, kind, p in m.comb_units():
+    if kind != "conn": continue
+    dst, src = p
+    if isinstance(src, list): continue
+    dk, dlo, dhi = m.resolve(ip, dst)
+    sk, slo, shi = m.resolve(ip, src)
+    for i in range(dhi - dlo):
+      edges.setdefault((sk, slo + i), []).append((dk, dlo + i))
+  return edges
+
+
+def reach(bits, edges):
+  seen = set(bits); work = list(bits)
+  while work:
+    b = work.pop()
+    for n in edges.get(b, ()):
+      if n not in seen:
+        seen.add(n); work.append(n)
+  return seen
